@@ -30,6 +30,43 @@ var codecWriter = &xWriter{
 		"b.WriteInt32": "tr_WriteInt32", "b.WriteInt64": "tr_WriteInt64"},
 }
 
+// codec.Reader: the bytes.Reader inside is abstracted to (underlying bytes, position), see GoSem.go_reader
+var codecReader = &xStateSpec{
+	Type:   "go_reader",
+	Fields: map[string]xStField{"b.depth": {"rd_depth", "go_rd_set_depth"}, "b.ref": {"rd_ref", ""}},
+	Pure:   map[string]string{"b.buf.Len": "go_rd_len"},
+	Prims: map[string]xStPrim{
+		"b.buf.ReadByte":   {Coq: "go_rd_readbyte", NRes: 2},
+		"b.buf.UnreadByte": {Coq: "go_rd_unreadbyte", NRes: 1},
+		"b.buf.Seek":       {Coq: "go_rd_seekcur", Args: []int{0}, Fixed: map[int]string{1: "io.SeekCurrent"}, NRes: 2},
+		"bReadU8":          {Coq: "go_rd_u8", Outs: []int{1}, Fixed: map[int]string{0: "b.buf"}, NRes: 1},
+		"bReadU16":         {Coq: "go_rd_u16", Outs: []int{1}, Fixed: map[int]string{0: "b.buf"}, NRes: 1},
+		"bReadU32":         {Coq: "go_rd_u32", Outs: []int{1}, Fixed: map[int]string{0: "b.buf"}, NRes: 1},
+		"bReadU64":         {Coq: "go_rd_u64", Outs: []int{1}, Fixed: map[int]string{0: "b.buf"}, NRes: 1},
+		"io.ReadFull":      {Coq: "go_rd_readfull", Args: []int{1}, Outs: []int{1}, Fixed: map[int]string{0: "b.buf"}, NRes: 2},
+		"b.buf.Read":       {Coq: "go_rd_read", Args: []int{0}, Outs: []int{0}, NRes: 2},
+	},
+	Errs: map[string]bool{"fmt.Errorf": true},
+	Calls: map[string]string{"b.readHead": "tr_readHead", "b.unreadHead": "tr_unreadHead", "b.Skip": "tr_Skip", "b.Next": "tr_Next",
+		"b.skipNested": "tr_skipNested", "b.skipFieldMap": "tr_skipFieldMap", "b.skipFieldList": "tr_skipFieldList",
+		"b.skipFieldSimpleList": "tr_skipFieldSimpleList", "b.skipField": "tr_skipField", "b.SkipToStructEnd": "tr_SkipToStructEnd",
+		"b.SkipToNoCheck": "tr_SkipToNoCheck", "b.ReadInt8": "tr_ReadInt8", "b.ReadInt16": "tr_ReadInt16", "b.ReadInt32": "tr_ReadInt32",
+		"b.ReadInt64": "tr_ReadInt64"},
+}
+
+// the request id counter msgID (package tars): the state is the counter, the sync/atomic calls on it are primitives
+var msgIDCounter = &xStateSpec{
+	Type: "Z",
+	Prims: map[string]xStPrim{
+		"atomic.CompareAndSwapInt32": {Coq: "go_atomic_cas32", Args: []int{1, 2}, Fixed: map[int]string{0: "&msgID"}, NRes: 1},
+		"atomic.AddInt32":            {Coq: "go_atomic_add32", Args: []int{1}, Fixed: map[int]string{0: "&msgID"}, NRes: 1},
+	},
+}
+
+func rdUnit(name, fn string, fuel bool, group string) xUnit {
+	return xUnit{Name: name, Dir: "tars/protocol/codec", Func: "Reader." + fn, State: codecReader, Fuel: fuel, Group: group}
+}
+
 // the translated units, callees before callers
 var xUnits = []xUnit{
 	{Name: "tr_TarsRequest", Dir: "tars/protocol", Func: "TarsRequest", Globals: []string{"maxPackageLength"}},
@@ -46,6 +83,23 @@ var xUnits = []xUnit{
 	// selector.BuildStaticWeightList up to the scaling range: static-weight check, min / max weight, guard, clamp
 	{Name: "tr_BSWL_range", Dir: "tars/selector", Func: "BuildStaticWeightList", From: "^", To: "if minWeight > 0 {",
 		Outs: []string{"maxRange", "totalWeight", "minWeight", "maxWeight"}},
+	// codec.Reader: heads, the skipping functions (one recursive group), the field search, the integer/string readers
+	rdUnit("tr_readHead", "readHead", false, ""), rdUnit("tr_unreadHead", "unreadHead", false, ""),
+	rdUnit("tr_Next", "Next", false, ""), rdUnit("tr_Skip", "Skip", false, ""), rdUnit("tr_skipNested", "skipNested", false, ""),
+	rdUnit("tr_skipFieldMap", "skipFieldMap", true, "skip"), rdUnit("tr_skipFieldList", "skipFieldList", true, "skip"),
+	rdUnit("tr_skipFieldSimpleList", "skipFieldSimpleList", true, "skip"), rdUnit("tr_skipField", "skipField", true, "skip"),
+	rdUnit("tr_SkipToStructEnd", "SkipToStructEnd", true, "skip"), rdUnit("tr_SkipToNoCheck", "SkipToNoCheck", true, "skip"),
+	rdUnit("tr_ReadInt32", "ReadInt32", true, "skip"),
+	rdUnit("tr_SkipTo", "SkipTo", true, ""), rdUnit("tr_ReadInt8", "ReadInt8", true, ""), rdUnit("tr_ReadInt16", "ReadInt16", true, ""),
+	rdUnit("tr_ReadInt64", "ReadInt64", true, ""), rdUnit("tr_ReadUint8", "ReadUint8", true, ""), rdUnit("tr_ReadUint16", "ReadUint16", true, ""),
+	rdUnit("tr_ReadUint32", "ReadUint32", true, ""), rdUnit("tr_ReadBool", "ReadBool", true, ""), rdUnit("tr_ReadString", "ReadString", true, ""),
+	rdUnit("tr_ReadSliceUint8", "ReadSliceUint8", false, ""), rdUnit("tr_ReadBytes", "ReadBytes", false, ""),
+	// ServantProxy.genRequestID: the compare-and-swap step, then the add loop (one sequential call is the two in a row)
+	{Name: "tr_genRequestID_cas", Dir: "tars", Func: "ServantProxy.genRequestID", Globals: []string{"maxInt32"}, State: msgIDCounter,
+		From: "^", To: "atomic.CompareAndSwapInt32(&msgID, maxInt32, 1)",
+		After: []string{"for {\n\n\tif v := atomic.AddInt32(&msgID, 1); v != 0 {\n\t\treturn v\n\t}\n}"}},
+	{Name: "tr_genRequestID_loop", Dir: "tars", Func: "ServantProxy.genRequestID", State: msgIDCounter, Fuel: true, Group: "reqid",
+		From: "for {", To: "for {", After: []string{}},
 	// the registry <-> endpoint conversions (Tars2endpoint without its cache key)
 	{Name: "tr_Endpoint2tars", Dir: "tars/util/endpoint", Func: "Endpoint2tars"},
 	{Name: "tr_Tars2endpoint_build", Dir: "tars/util/endpoint", Func: "Tars2endpoint", From: "^", To: "e := Endpoint{",
@@ -93,7 +147,7 @@ func newXLoader(root string) *xLoader {
 }
 
 func (l *xLoader) Import(path string) (*types.Package, error) {
-	if path == "encoding/binary" || path == "math" || path == "bytes" || path == "time" {
+	if path == "encoding/binary" || path == "math" || path == "bytes" || path == "time" || path == "io" || path == "sync/atomic" {
 		return l.std.Import(path)
 	}
 	if l.mod != "" && strings.HasPrefix(path, l.mod+"/") {
@@ -166,8 +220,15 @@ func (p *xPkg) findFunc(name string) *ast.FuncDecl {
 	return nil
 }
 
+// xDef: the Gallina definition of one unit, in pieces (units of a group are assembled into one Fixpoint)
+type xDef struct{ comment, name, params, typ, body string }
+
+func (d xDef) text() string {
+	return fmt.Sprintf("(* %s *)\nDefinition %s %s : %s :=\n  %s.\n", d.comment, d.name, d.params, d.typ, d.body)
+}
+
 // xlateUnit: the Gallina definition of one unit (panics with xErr outside the subset)
-func xlateUnit(root string, u *xUnit, ld *xLoader, records map[string]*types.Named, recOrd *[]string, consts map[string]string, constOrd *[]string) string {
+func xlateUnit(root string, u *xUnit, units []xUnit, ld *xLoader, records map[string]*types.Named, recOrd *[]string, consts map[string]string, constOrd *[]string) xDef {
 	p, err := ld.load(u.Dir)
 	if err != nil {
 		panic(xErr{token.Position{Filename: filepath.Join(root, u.Dir)}, err.Error()})
@@ -176,7 +237,7 @@ func xlateUnit(root string, u *xUnit, ld *xLoader, records map[string]*types.Nam
 	if fd == nil {
 		panic(xErr{token.Position{Filename: filepath.Join(root, u.Dir)}, "function " + u.Func + " not found"})
 	}
-	x := &xl{oracleAt: map[string]ast.Node{}, fset: p.fset, info: p.info, pkg: p.pkg, unit: u, names: map[types.Object]string{}, used: map[string]bool{}, records: records, recOrd: recOrd, consts: consts, constOrd: constOrd}
+	x := &xl{xpkg: p, units: units, ptrParam: map[types.Object]bool{}, isParam: map[*types.Var]bool{}, oracleAt: map[string]ast.Node{}, fset: p.fset, info: p.info, pkg: p.pkg, unit: u, names: map[types.Object]string{}, used: map[string]bool{}, records: records, recOrd: recOrd, consts: consts, constOrd: constOrd}
 	if fd.Type.TypeParams != nil {
 		x.fail(fd, "generic functions are outside the subset")
 	}
@@ -187,6 +248,8 @@ func xlateUnit(root string, u *xUnit, ld *xLoader, records map[string]*types.Nam
 			x.fail(fd, "declared global %s is not a package-level variable", gname)
 		}
 		params = append(params, "("+x.declare(obj)+" : "+x.coqType(fd, obj.Type())+")")
+		x.paramNames = append(x.paramNames, x.names[obj])
+		x.isParam[obj] = true
 	}
 	// results
 	var rts []string
@@ -196,6 +259,11 @@ func xlateUnit(root string, u *xUnit, ld *xLoader, records map[string]*types.Nam
 			// return without values is rejected)
 			for i := 0; i < len(f.Names) || i < 1; i++ {
 				rts = append(rts, x.coqType(f.Type, x.typeOf(f.Type)))
+			}
+			if u.State != nil { // state mode: named results are variables, a bare return yields them
+				for _, id := range f.Names {
+					x.namedRes = append(x.namedRes, x.info.ObjectOf(id).(*types.Var))
+				}
 			}
 		}
 	}
@@ -219,17 +287,56 @@ func xlateUnit(root string, u *xUnit, ld *xLoader, records map[string]*types.Nam
 	body := fd.Body.List
 	var stateT, final string
 	if u.From == "" { // whole function
-		if fd.Recv != nil && u.Writer == nil && !u.Recv {
-			x.fail(fd, "methods are translated in writer mode or receiver-fields mode only")
+		if fd.Recv != nil && u.Writer == nil && !u.Recv && u.State == nil {
+			x.fail(fd, "methods are translated in writer, receiver-fields or state mode only")
 		}
+		var ptrTypes []string
 		for _, f := range fd.Type.Params.List {
 			for _, id := range f.Names {
 				if id.Name == "_" {
 					x.fail(id, "blank parameters are outside the subset")
 				}
 				obj := x.info.ObjectOf(id)
+				if u.State != nil {
+					if x.src(f.Type) == "*bytes.Reader" { // the library object: part of the state
+						continue
+					}
+					if pt, isPtr := obj.Type().(*types.Pointer); isPtr { // pointer parameter: an in/out value
+						x.ptrParam[obj] = true
+						x.ptrOrder = append(x.ptrOrder, obj.(*types.Var))
+						ptrTypes = append(ptrTypes, x.coqType(id, pt.Elem()))
+						params = append(params, "("+x.declare(obj)+" : "+x.coqType(id, pt.Elem())+")")
+						x.paramNames = append(x.paramNames, x.names[obj])
+						x.isParam[obj.(*types.Var)] = true
+						continue
+					}
+					if sig, isFn := obj.Type().Underlying().(*types.Signature); isFn { // func() error run on the state
+						if sig.Params().Len() != 0 || sig.Results().Len() != 1 || !xIsError(sig.Results().At(0).Type()) {
+							x.fail(id, "function parameters other than func() error are outside the subset")
+						}
+						params = append(params, "("+x.declare(obj)+" : "+u.State.Type+" -> ctl unit ("+u.State.Type+" * bool))")
+						x.paramNames = append(x.paramNames, x.names[obj])
+						continue
+					}
+				}
 				params = append(params, "("+x.declare(obj)+" : "+x.coqType(id, obj.Type())+")")
+				x.paramNames = append(x.paramNames, x.names[obj])
+				if v, ok := obj.(*types.Var); ok {
+					x.isParam[v] = true
+				}
 			}
+		}
+		if u.State != nil {
+			params = append(params, "(rd : "+u.State.Type+")")
+			x.paramNames = append(x.paramNames, "rd")
+			all := append(append([]string{u.State.Type}, ptrTypes...), rts...)
+			x.retType = "(" + strings.Join(all, " * ") + ")"
+			if len(all) == 1 {
+				x.retType = all[0]
+			}
+		}
+		if u.Fuel {
+			params = append([]string{"(fuel : nat)"}, params...)
 		}
 		if u.Recv { // the receiver's fields read / assigned by the body (outside oracle expressions)
 			if fd.Recv == nil || len(fd.Recv.List[0].Names) != 1 {
@@ -288,6 +395,9 @@ func xlateUnit(root string, u *xUnit, ld *xLoader, records map[string]*types.Nam
 		if u.Writer != nil {
 			params = append(params, "(out : list N)")
 			stateT, final = "(list N)", "Next out"
+		} else if u.State != nil {
+			// reaching the end of the body is a return (functions without results, or with named ones)
+			stateT, final = "unit", ""
 		} else {
 			stateT, final = "unit", "Next tt"
 		}
@@ -345,6 +455,20 @@ func xlateUnit(root string, u *xUnit, ld *xLoader, records map[string]*types.Nam
 		sort.Slice(free, func(i, j int) bool { return free[i].Pos() < free[j].Pos() })
 		for _, v := range free {
 			params = append(params, "("+x.declare(v)+" : "+x.coqType(fd, v.Type())+")")
+			x.paramNames = append(x.paramNames, x.names[v])
+			x.isParam[v] = true
+		}
+		if u.State != nil { // state mode: the state is the last parameter and the first component of what is returned
+			params = append(params, "(rd : "+u.State.Type+")")
+			x.paramNames = append(x.paramNames, "rd")
+			all := append([]string{u.State.Type}, rts...)
+			x.retType = "(" + strings.Join(all, " * ") + ")"
+			if len(all) == 1 {
+				x.retType = all[0]
+			}
+		}
+		if u.Fuel {
+			params = append([]string{"(fuel : nat)"}, params...)
 		}
 		// the variables handed on: declared inside the slice or parameters of it
 		var outs []*types.Var
@@ -414,7 +538,22 @@ func xlateUnit(root string, u *xUnit, ld *xLoader, records map[string]*types.Nam
 	if len(body) > 0 {
 		x.lo, x.hi = body[0].Pos(), body[len(body)-1].End()
 	}
+	if u.State != nil && u.From == "" {
+		var vs []string
+		for _, v := range x.namedRes {
+			vs = append(vs, x.declare(v))
+		}
+		if len(x.namedRes) == 0 && x.nres > 0 {
+			final = "Panic" // unreachable: the compiler demands a terminating statement
+		} else {
+			final = x.ret(vs)
+		}
+	}
 	text := x.block(body, final, 2)
+	for i := len(x.namedRes) - 1; i >= 0; i-- { // named results start at their zero values
+		v := x.namedRes[i]
+		text = "let " + x.names[v] + " : " + x.coqType(fd, v.Type()) + " := " + x.zero(fd, v.Type()) + " in\n    " + text
+	}
 	lines := strings.Split(text, "\n")
 	for i := range lines {
 		lines[i] = strings.TrimRight(lines[i], " ")
@@ -426,7 +565,7 @@ func xlateUnit(root string, u *xUnit, ld *xLoader, records map[string]*types.Nam
 	if u.From != "" {
 		what += fmt.Sprintf(", statements %q .. %q", u.From, u.To)
 	}
-	return fmt.Sprintf("(* %s: %s *)\nDefinition %s %s : ctl %s %s :=\n  %s.\n", rel, what, u.Name, strings.Join(params, " "), stateT, x.retType, text)
+	return xDef{rel + ": " + what, u.Name, strings.Join(params, " "), "ctl " + stateT + " " + x.retType, text}
 }
 
 func xRecordDecl(name string, nm *types.Named, x *xl) string {
@@ -455,7 +594,9 @@ func xlateUnits(root string, units []xUnit) (out, errs []string) {
 	var recOrd, constOrd []string
 	consts := map[string]string{}
 	emitted, emittedC := 0, 0
-	for i := range units {
+	var group []xDef
+	nerr := 0
+	for i := 0; i < len(units); i++ {
 		u := &units[i]
 		func() {
 			defer func() {
@@ -475,7 +616,7 @@ func xlateUnits(root string, units []xUnit) (out, errs []string) {
 						strings.ReplaceAll(strings.ReplaceAll(msg, "(*", "( *"), "*)", "* )"), u.Name))
 				}
 			}()
-			def := xlateUnit(root, u, ld, records, &recOrd, consts, &constOrd)
+			def := xlateUnit(root, u, units, ld, records, &recOrd, consts, &constOrd)
 			for ; emittedC < len(constOrd); emittedC++ { // named constants first used by this unit
 				out = append(out, fmt.Sprintf("Definition %s : Z := %s.", constOrd[emittedC], consts[constOrd[emittedC]]))
 			}
@@ -484,8 +625,37 @@ func xlateUnits(root string, units []xUnit) (out, errs []string) {
 				x := &xl{records: records, recOrd: &recOrd}
 				out = append(out, xRecordDecl(recOrd[emitted], records[recOrd[emitted]], x))
 			}
-			out = append(out, def)
+			if u.Group == "" {
+				out = append(out, def.text())
+				return
+			}
+			// a group: one mutual Fixpoint on fuel, emitted with its last unit
+			group = append(group, def)
+			if i+1 < len(units) && units[i+1].Group == u.Group {
+				return
+			}
+			var parts []string
+			for k, d := range group {
+				kw := "with"
+				if k == 0 {
+					kw = "Fixpoint"
+				}
+				parts = append(parts, fmt.Sprintf("(* %s *)\n%s %s %s {struct fuel} : %s :=\n  match fuel with O => Panic | S fuel =>\n  %s\n  end", d.comment, kw, d.name, d.params, d.typ, d.body))
+			}
+			out = append(out, strings.Join(parts, "\n")+".\n")
+			group = nil
 		}()
+		if len(errs) > nerr && u.Group != "" { // a failed member: the group cannot be emitted; its other members are undefined too
+			for _, d := range group {
+				errs = append(errs, d.name+": not translated because "+u.Name+" of its group is outside the subset")
+			}
+			group = nil
+			for i+1 < len(units) && units[i+1].Group == u.Group {
+				i++
+				errs = append(errs, units[i].Name+": not translated because "+u.Name+" of its group is outside the subset")
+			}
+		}
+		nerr = len(errs)
 	}
 	return out, errs
 }
